@@ -1,12 +1,16 @@
 import RichModel.Lemmas.Color
 import RichModel.Lemmas.ColorExtra
+import RichModel.Lemmas.ColorMore
+import RichModel.Lemmas.ColorFloat
 /-!
 # C18 — colour down-conversion stays in gamut, is idempotent and picks the nearest entry
 
 Property theorems only (helper lemmas and the specification predicates `Color.WF`, `Color.InGamut`,
 `IsNearest`, `onGreyRamp`, `sgrSpec`, `sourceTriplet` live in `Lemmas/Color.lean`; those of the second
 half — `get_truecolor` / `TerminalTheme` (`truecolorSpec`, `displayPalette`), `ColorTriplet.hex` /
-`parse_rgb_hex`, `blend_rgb` — in `Lemmas/ColorExtra.lean`).  33 theorems.
+`parse_rgb_hex`, `blend_rgb` — in `Lemmas/ColorExtra.lean`; those of the fourth deepening — the saturation
+decision against exact arithmetic, `blend_rgb` in IEEE doubles, `parse_rgb_hex` on any string, `is_default` /
+`is_system_defined` — in `Lemmas/ColorMore.lean`, `Lemmas/ColorFloat.lean`).  49 theorems.
 
 `P := richPalettes` are the palettes translated from `rich/_palettes.py` / `rich/terminal_theme.py`
 on this run; the only facts used about them are the side conditions `palettes_ok` (sizes 16/16/256,
@@ -275,6 +279,110 @@ theorem blend_rgb_endpoints (t1 t2 : Triplet) (n : Nat) :
   unfold blendRgb
   rw [blendChannel_one, blendChannel_one, blendChannel_one]
 
+/-! ## Fourth deepening: float facts as theorems, `blend_rgb` in doubles, `int(…, 16)` on Unicode, the rest of the surface -/
+
+/-- **The saturation test is the exact rational one except exactly at the nine listed pairs** — for every
+triplet, no bound on the components: `satLow` (what the model uses for `rgb_to_hls(…)[2] < 0.1`) equals
+`satLowRat` (`s < 1/10` in exact arithmetic, `s = 0` when max = min) iff (max, min) is not in `satExcDouble`.
+The harness evaluates the same statement on the real `colorsys` for all 32,896 pairs on every run. -/
+theorem sat_decision_exact_except_listed (t : Triplet) :
+    satLow satExcDouble t = satLowRat t ↔ (t.maxc, t.minc) ∉ satExcDouble :=
+  satLow_eq_rat_iff t
+
+/-- …and at a listed pair the double computation says "grey" where exact arithmetic (a tie, see
+`sat_exceptions_are_ties`) says "not grey": the only effect is that nine tie classes go to the grey ramp. -/
+theorem sat_exception_direction (t : Triplet) (h : (t.maxc, t.minc) ∈ satExcDouble) :
+    satLow satExcDouble t = true ∧ satLowRat t = false :=
+  satLow_at_exception t h
+
+/-- `Color.is_system_defined`: exactly the default, STANDARD and WINDOWS colours. -/
+theorem is_system_defined_spec (c : Color) :
+    c.isSystemDefined = true ↔ c.type = .default ∨ c.type = .standard ∨ c.type = .windows :=
+  isSystemDefined_iff c
+
+/-- `Color.is_default`: exactly the colours of type DEFAULT — and those are the ones whose SGR parameter is 39 / 49. -/
+theorem is_default_spec (c : Color) (fg : Bool) :
+    (c.isDefault = true ↔ c.type = .default) ∧
+    (c.isDefault = true → getAnsiCodes c fg = .ok [if fg then 39 else 49]) := by
+  refine ⟨isDefault_iff c, fun h => ?_⟩
+  have ht := (isDefault_iff c).1 h
+  simp [getAnsiCodes, ht]
+
+/-- **A colour downgraded to a 16-colour system is system-defined** (its RGB value is the terminal's to choose). -/
+theorem downgrade16_is_system_defined (cfg : Cfg) (c : Color) (sys : ColorSystem) (h : c.WF)
+    (hsys : sys = .standard ∨ sys = .windows) :
+    ∃ r, downgrade cfg P c sys = .ok r ∧ r.isSystemDefined = true := by
+  obtain ⟨r, hr, hg, _⟩ := downgrade_in_gamut cfg c sys h
+  exact ⟨r, hr, inGamut16_systemDefined r sys hsys hg⟩
+
+/-- `parse_rgb_hex` on arbitrary strings (`parseRgbHexU`: Unicode decimal digits and white space are read as
+their ASCII forms, any other non-ASCII character is a `ValueError`) **extends** the ASCII model. -/
+theorem parse_rgb_hex_unicode_extends_ascii (s : List Char) (h : ∀ c ∈ s, c.toNat < 128) :
+    parseRgbHexU s = parseRgbHex s :=
+  parseRgbHexU_ascii s h
+
+theorem parse_rgb_hex_unicode_length (s : List Char) (h : s.length ≠ 6) : parseRgbHexU s = .error .assertionError :=
+  parseRgbHexU_len s h
+
+/-- Side condition on the *generated* runtime table of Unicode decimal digits (`Gen.strDecimalRuns`, from the
+running Python): every run is ten consecutive code points with values 0..9, so the translation of a digit is
+always one of `'0'..'9'`; only the first run is ASCII. -/
+theorem decimal_runs_ok :
+    Gen.strDecimalRuns.all (fun r => r.1 + 9 == r.2.1 && r.2.2 == 0 && (r.1 == 48 || 128 ≤ r.1)) = true := by
+  decide +kernel
+
+/-- The dyadic model of `blend_rgb` is the exact-rational one at `cross_fade = k / 2^n`. -/
+theorem blend_dyadic_is_rational (c1 c2 : Nat) (k : Int) (n : Nat) :
+    blendChannel c1 c2 k n = blendChannelQ c1 c2 k (2 ^ n) :=
+  blendChannel_eq_Q c1 c2 k n
+
+/-- **The exact-rational blend stays between its arguments** for every `cross_fade = num / den` in [0, 1]. -/
+theorem blend_rgb_rational_in_range (c1 c2 : Nat) (num : Int) (den : Nat) (hden : 0 < den) (h0 : 0 ≤ num)
+    (h1 : num ≤ (den : Int)) :
+    ((min c1 c2 : Nat) : Int) ≤ blendChannelQ c1 c2 num den ∧ blendChannelQ c1 c2 num den ≤ ((max c1 c2 : Nat) : Int) :=
+  blendChannelQ_range c1 c2 num den hden h0 h1
+
+/-- **Refinement, doubles → rationals**: when neither float operation has to round (both exact intermediate
+values have at most 53 bits in units of `2^-cs`) the double computation of `blend_rgb` is the exact-rational
+one.  This is the side condition the dyadic model of the earlier rounds only assumed. -/
+theorem blend_rgb_float_exact_when_small (c1 c2 : Nat) (cn : Int) (cs : Nat)
+    (hp : ((((c2 : Int) - (c1 : Int)) * cn).natAbs) < 2 ^ 53)
+    (hs : (((c1 : Int) * ((2 ^ cs : Nat) : Int) + ((c2 : Int) - (c1 : Int)) * cn).natAbs) < 2 ^ 53) :
+    blendChannelF c1 c2 cn cs = blendChannelQ c1 c2 cn (2 ^ cs) :=
+  blendChannelF_eq_Q c1 c2 cn cs hp hs
+
+/-- Round-to-nearest-even to 53 bits never crosses a number with at most 53 significant bits. -/
+theorem rounding_sandwich (A B s n : Nat) (hA : A < 2 ^ 53) (hB : B < 2 ^ 53) (h : A * 2 ^ s ≤ n) (h' : n ≤ B * 2 ^ s) :
+    A * 2 ^ s ≤ rnd53 n ∧ rnd53 n ≤ B * 2 ^ s :=
+  ⟨rnd53_lower A s n hA h, rnd53_upper B s n hB h'⟩
+
+/-- **`blend_rgb` as computed in IEEE doubles stays between its arguments for every finite double
+`cross_fade = cn / 2^cs` in [0, 1]** (any `cs`: no bound on the size of the float) — hence in gamut. -/
+theorem blend_rgb_float_in_range (c1 c2 : Nat) (cn : Int) (cs : Nat) (hc1 : c1 ≤ 255) (hc2 : c2 ≤ 255)
+    (h0 : 0 ≤ cn) (h1 : cn ≤ ((2 ^ cs : Nat) : Int)) :
+    ((min c1 c2 : Nat) : Int) ≤ blendChannelF c1 c2 cn cs ∧ blendChannelF c1 c2 cn cs ≤ ((max c1 c2 : Nat) : Int) :=
+  blendChannelF_range c1 c2 cn cs hc1 hc2 h0 h1
+
+/-- …and returns `color1` at `0.0`, `color2` at `1.0`. -/
+theorem blend_rgb_float_endpoints (c1 c2 cs : Nat) (hc1 : c1 ≤ 255) (hc2 : c2 ≤ 255) :
+    blendChannelF c1 c2 0 cs = c1 ∧ blendChannelF c1 c2 ((2 ^ cs : Nat) : Int) cs = c2 :=
+  blendChannelF_endpoints c1 c2 cs hc1 hc2
+
+/-- `blend_rgb` raises exactly for a non-finite `cross_fade` (`int(inf)`: `OverflowError`, `int(nan)`: `ValueError`). -/
+theorem blend_rgb_float_raises_iff_nonfinite (t1 t2 : Triplet) (cf : PyFloat) :
+    (∃ v, blendRgbF t1 t2 cf = .ok v) ↔ ∃ n s, cf = .finite n s := by
+  cases cf with
+  | finite n s => exact ⟨fun _ => ⟨n, s, rfl⟩, fun _ => ⟨_, rfl⟩⟩
+  | posInf => by_cases hr : t1.red = t2.red <;> simp [blendRgbF, blendChannelPy, bind, Except.bind, hr]
+  | negInf => by_cases hr : t1.red = t2.red <;> simp [blendRgbF, blendChannelPy, bind, Except.bind, hr]
+  | nan => simp [blendRgbF, blendChannelPy, bind, Except.bind]
+
+/-- Observation (float semantics, not a defect): `0.29` is not a double; `blend_rgb` of a channel 0 → 100 at
+the double nearest to 0.29 gives 28, the exact blend at 29/100 is 29.  The harness checks on real rich that
+for `k/100` and `k/255` this happens only where the exact value is an integer, and then by exactly one. -/
+theorem blend_float_differs_from_rational_at_integers :
+    blendChannelF 0 100 5224175567749775 54 = 28 ∧ blendChannelQ 0 100 29 100 = 29 := by decide +kernel
+
 /-! ## Non-vacuity: the hypotheses are met by concrete, non-trivial values -/
 
 /-- orange, `#ff8700` -/
@@ -297,6 +405,18 @@ example : getTruecolorT P (TerminalTheme.init ⟨1, 2, 3⟩ ⟨4, 5, 6⟩ (List.
 example : parseRgbHex "ff8700".toList = .ok (255, 135, 0) := by decide
 example : parseRgbHex "-f+a 1".toList = .ok (-15, 10, 1) := by decide  -- what int(…, 16) accepts
 example : blendRgb ⟨0, 0, 0⟩ ⟨255, 255, 255⟩ 1 1 = (127, 127, 127) := by decide
+
+example : (⟨55, 45, 50⟩ : Triplet).maxc = 55 ∧ ((⟨55, 45, 50⟩ : Triplet).maxc, (⟨55, 45, 50⟩ : Triplet).minc) ∈ satExcDouble := by decide
+example : satLow satExcDouble ⟨200, 100, 0⟩ = satLowRat ⟨200, 100, 0⟩ := by decide
+example : parseRgbHexU "٣f00 1".toList = .ok (63, 0, 1) := by decide +kernel  -- ARABIC-INDIC DIGIT THREE
+example : parseRgbHexU "１٩ a-1".toList = .ok (25, 10, -1) := by decide +kernel  -- FULLWIDTH ONE, IDEOGRAPHIC SPACE
+example : parseRgbHexU "fé0000".toList = .error .valueError := by decide +kernel
+example : blendRgbF ⟨0, 10, 200⟩ ⟨100, 250, 3⟩ (.finite 5224175567749775 54) = .ok (28, 79, 142) := by decide +kernel  -- 0.29
+example : blendRgbF ⟨0, 10, 200⟩ ⟨0, 250, 3⟩ .posInf = .error .valueError := by decide  -- 0 * inf = nan
+example : blendRgbF ⟨0, 10, 200⟩ ⟨9, 10, 3⟩ .posInf = .error .overflowError := by decide
+example : (0 : Int) ≤ 5224175567749775 ∧ (5224175567749775 : Int) ≤ ((2 ^ 54 : Nat) : Int) := by decide
+example : ({ name := [], type := .windows, number := some 3 } : Color).isSystemDefined = true := by decide
+example : (⟨1, 22, 255⟩ : Triplet).rgbStr = "rgb(1,22,255)".toList := by decide +kernel
 
 /-! ## Witness: the defect found in rich 9.10.0 as found, before fix 2cec9e1 (variant `stdViaPalette = true`) -/
 
